@@ -7,6 +7,8 @@ import (
 	"errors"
 	"fmt"
 	"io"
+	"os"
+	"syscall"
 
 	"github.com/gabriel-vasile/mimetype/internal/verifsim/core"
 )
@@ -35,7 +37,39 @@ type Delivery struct {
 	// ErrWraps: 0 the plain sentinel; 1 the sentinel wrapping io.EOF; 2 wrapping
 	// io.ErrUnexpectedEOF. A reader signals end of input with io.EOF itself, so
 	// an error that merely wraps it is a failure like any other.
+	// 3: an error that calls itself temporary and a timeout (net.Error style);
+	// 4: wrapping syscall.EAGAIN; 5: wrapping syscall.EINTR; 6: wrapping
+	// os.ErrDeadlineExceeded; 7: wrapping io.ErrNoProgress. A failure is a failure
+	// whatever it calls itself: the statement says "any error other than end of input".
 	ErrWraps int `json:"err_wraps,omitempty"`
+	// Recover: the stream fails once and then carries on delivering (a transient
+	// condition); a consumer that retries gets the rest.
+	Recover bool `json:"recover,omitempty"`
+}
+
+type tempErr struct{}
+
+func (tempErr) Error() string   { return "verifsim: injected read error (resource temporarily unavailable)" }
+func (tempErr) Temporary() bool { return true }
+func (tempErr) Timeout() bool   { return true }
+func (tempErr) Unwrap() error   { return ErrInjected }
+
+// Flavours of the injected error, by Delivery.ErrWraps.
+var flavours = []error{
+	nil, nil, nil,
+	tempErr{},
+	fmt.Errorf("%w (%w)", ErrInjected, syscall.EAGAIN),
+	fmt.Errorf("%w (%w)", ErrInjected, syscall.EINTR),
+	fmt.Errorf("%w (%w)", ErrInjected, os.ErrDeadlineExceeded),
+	fmt.Errorf("%w (%w)", ErrInjected, io.ErrNoProgress),
+}
+
+// Flavour returns the error for an ErrWraps value >= 3 (nil otherwise).
+func Flavour(w int) error {
+	if w >= 3 && w < len(flavours) {
+		return flavours[w]
+	}
+	return nil
 }
 
 // ErrInjectedEOF and ErrInjectedUEOF are failures whose chain contains the
@@ -165,6 +199,9 @@ func (s *Stream) injected() error {
 	if s.Err != nil {
 		return s.Err
 	}
+	if f := Flavour(s.D.ErrWraps); f != nil {
+		return f
+	}
 	switch s.D.ErrWraps {
 	case 1:
 		return ErrInjectedEOF
@@ -192,9 +229,12 @@ func (s *Stream) read(p []byte) (int, error) {
 	if len(p) > s.MaxAsk {
 		s.MaxAsk = len(p)
 	}
-	if s.Faulted {
+	if s.Faulted && !s.D.Recover {
 		s.AfterEnd++
 		return 0, s.injected()
+	}
+	if s.Faulted {
+		s.AfterEnd++ // read again after a failure (a retrying consumer)
 	}
 	if s.SawEOF {
 		s.AfterEnd++
@@ -204,7 +244,7 @@ func (s *Stream) read(p []byte) (int, error) {
 		return 0, nil
 	}
 	end := len(s.Data)
-	faulty := s.D.FaultAt >= 0 && s.D.FaultAt <= len(s.Data)
+	faulty := s.D.FaultAt >= 0 && s.D.FaultAt <= len(s.Data) && !(s.Faulted && s.D.Recover)
 	if faulty {
 		end = s.D.FaultAt
 	}
